@@ -81,6 +81,55 @@ def check_sites(proc, lib, where):
     return n, viols, seen
 
 
+def split_args(text):
+    """Top-level comma split of the text between the parentheses of one RUN call (strings and nesting respected)."""
+    out, cur, depth, instr = [], "", 0, False
+    for ch in text:
+        if instr:
+            cur += ch
+            instr = ch != '"'
+            continue
+        if ch == '"':
+            instr = True
+        elif ch in "([":
+            depth += 1
+        elif ch in ")]":
+            depth -= 1
+        elif ch == "," and depth == 0:
+            out.append(cur.strip())
+            cur = ""
+            continue
+        cur += ch
+    out.append(cur.strip())
+    return out
+
+
+def lexical_sites(out, lib):
+    """Fallback when the emitted text does not parse (ill-formed text is C07's alarm): the RUN calls are read off the
+    lines; what this can still decide is the count - a call with an empty slot or a number of arguments that differs
+    from the PARAM lines.  -> (n, [(sig, detail)])"""
+    import re
+
+    n = 0
+    viols = []
+    for i, line in enumerate(out.split("\n")):
+        for part in re.split(r"\s\\\s", line):
+            m = re.match(r"^\s*(?:\d+\s+)?run\s+([A-Za-z_][A-Za-z0-9_]*)\((.*)\)\s*$", part, re.I)
+            if not m:
+                continue
+            low = m.group(1).lower()
+            if low in static.SYSTEM_MODULES or low == "inkey" or low not in lib:
+                continue
+            args = split_args(m.group(2))
+            n += 1
+            if any(a == "" for a in args):
+                viols.append(("C14/arity/%s/empty-argument" % low, {"where": "program", "call": low, "line": i + 1, "text": part.strip()[:160]}))
+            elif len(args) != len(lib[low]["params"]):
+                viols.append(("C14/arity/%s/%d-for-%d" % (low, len(args), len(lib[low]["params"])),
+                              {"where": "program", "call": low, "line": i + 1, "text": part.strip()[:160]}))
+    return n, viols
+
+
 def run_case(case):
     obs = {"counters": {}, "viols": [], "sets": {}}
     lib = harness.library()
@@ -136,8 +185,12 @@ def run_case(case):
     procs, err = harness.parse_b09(conv["out"])
     if procs is None:
         obs["nontrivial"] = False
-        obs["counters"]["unparseable_output"] = 1     # C07's business
+        obs["counters"]["unparseable_output"] = 1     # C07's business - except for what the lines still show
         obs["key"] = "x"
+        n, viols = lexical_sites(conv["out"], lib)
+        obs["counters"]["run_sites_checked_lexically"] = n
+        for sig, d in viols:
+            obs["viols"].append({"sig": sig, "detail": dict(d, source=text[:600])})
         return obs
     main = procs[-1]
     n, viols, seen = check_sites(main, lib, "program")
@@ -190,6 +243,22 @@ def cases(tier, seed):
         k = t.count("%s")
         for v in STR_VARIANTS:
             yield {"kind": "text", "text": "10 " + t % tuple([v] * k), "opts": {}}
+    # the same statements in every arm of an IF: THEN, ELSE, first and later ELSE IF, behind another statement
+    arms = ["10 IF A=1 THEN %s", "10 IF A=1 THEN %s ELSE CLS", "10 IF A=1 THEN CLS ELSE %s", "10 IF A=1 THEN CLS ELSE IF A=2 THEN %s",
+            "10 IF A=1 THEN CLS ELSE IF A=2 THEN %s ELSE CLS 3", "10 IF A=1 THEN CLS ELSE IF A=2 THEN CLS 2 ELSE IF A=3 THEN %s ELSE CLS 3",
+            "10 IF A=1 THEN CLS:%s ELSE IF A=2 THEN CLS 2:%s", "10 CLS:%s"]
+    m = 0
+    for t in templates + stemplates:
+        if t.startswith(("FOR ", "IF ", "ON ")):
+            continue
+        k = t.count("%s")
+        pool = STR_VARIANTS if t in stemplates else OPERAND_VARIANTS
+        for v in (pool[4:7] if tier == "quick" else pool):
+            m += 1
+            st = t % tuple(v if j == (m % k) else pool[m % 4] for j in range(k))
+            arm = arms[m % len(arms)]
+            for a in ([arm] if tier == "quick" else arms):
+                yield {"kind": "text", "text": a.replace("%s", st), "opts": [{}, {"initialize_vars": True}][m % 2]}
     yield {"kind": "text", "text": "10 INPUT A,B$:LINE INPUT C$:READ A,B$\n20 DATA 1,,X", "opts": {}}
     for i in range(1500 if tier == "quick" else 150000):
         yield {"kind": "peg", "seed": seed * 500009 + i, "opts": [{}, {"initialize_vars": True}][i % 2]}
